@@ -43,12 +43,17 @@ def run(tier, seed):
              if thorough else F.consts(WithHist="TRUE", MaxOpts=1, Values="{" + ", ".join(f'"{v}"' for v in E.VALUES) + "}")),
             ("leak", F.consts(WithHist="TRUE", MaxOpts=1, MaxStmts=3, WithTable="TRUE", Values='{"vm"}', groups=["start", "cache", "minvalue", "order"]))]
     if thorough:
-        gens.append(("five and six groups", F.consts(WithHist="TRUE", MaxOpts=6, Values='{"vB"}', groups=["increment", "start", "minvalue", "maxvalue", "cache", "order"][:5])))
+        gens.append(("five groups", F.consts(WithHist="TRUE", MaxOpts=5, Values='{"vB"}', groups=["increment", "start", "minvalue", "maxvalue", "cache", "order"][:5])))
+        gens.append(("six groups (simulation)", None))
     seeds = [seed * 11 + i for i in range(2 if not thorough else 4)]
     total = uniq = 0
     sample = None
     for what, cs in gens:
-        g = F.mc(cs, "generation " + what, timeout=1800)
+        if cs is None:
+            g = F.mc(F.consts(WithHist="TRUE", MaxOpts=6, Values='{"v1","vn","vB","vm"}'), what, timeout=1800, simulate="num=20000", depth=10, seed=seed + 1)
+            g.beh = list({repr(b["hist"]): b for b in g.beh}.values())
+        else:
+            g = F.mc(cs, "generation " + what, timeout=1800)
         print(f"  gen {what}: {len(g.beh)} behaviours, TLC {g.wall:.1f}s", flush=True)
         n, nu, nbad = F.compare(V, g.beh, seeds, what)
         total += n
